@@ -54,7 +54,8 @@ def plan(tier, seed):
 
 
 def floors(tier):
-    return {"distinct_nontrivial": 400, "cls:sel:elem": 500, "cls:sel:parent_elem": 500, "cls:sel:elem_parent": 300,
+    return {"distinct_nontrivial": 400, "cls:sel:elem": 500, "cls:sel:parent_elem": 500, "cls:sel:elem_parent": 300, "cls:sel:parent": 300, "cls:primitive_elements": 300,
+            "cls:cond:elem_then_parent_or": 150, "cls:cond:elem_then_parent_notand": 150,
             "cls:cond:none": 200, "cls:cond:elem": 200, "cls:cond:parent": 200, "cls:cond:both": 200, "cls:cond:join": 200, "cls:cond:join3": 200, "cls:cond:elem_or": 200, "cls:cond:elem_stacked": 200, "cls:cond:elem_and": 200, "cls:cond:elem_not": 200,
             "cls:scalar": 200, "cls:plain_scalar_value": 60, "cls:reevaluated_after_inner_lists_changed": 150, "cls:has_empty_list": 500, "cls:has_repeated_element": 500, "re:Flatten(@.*)?\\.enter": 2000}
 
@@ -74,8 +75,19 @@ def gen_case(rng):
             p["one"] = ["s", rng.choice([0, None, "", False, 7, "z"])]
         return {"world": w, "sel": rng.choice(["elem", "parent_elem", "elem_parent"]), "cond": rng.choice(["none", "parent"]),
                 "thr": 1, "kthr": rng.randint(0, 3), "thr2": 1, "scalar": True, "plain_scalar": True, "caching": rng.random() < 0.7}
-    return {"world": gen_world(rng), "sel": rng.choice(["elem", "parent_elem", "parent_elem", "elem_parent"]),
-            "cond": rng.choice(["none", "elem", "parent", "both", "join", "join3", "elem_or", "elem_stacked", "elem_and", "elem_not"]),
+    if rng.random() < 0.12:
+        # primitive elements (negative and positive ints): no object identity to tell two elements of one list apart
+        w = gen_world(rng)
+        for p in w["parents"]:
+            p["items"] = rng.sample(range(5), rng.randint(0, 4))
+        return {"world": w, "prim": True, "sel": rng.choice(["elem", "parent_elem", "elem_parent", "parent"]),
+                "cond": rng.choice(["none", "elem", "parent", "both", "elem_or", "elem_stacked", "elem_and", "elem_not",
+                                    "elem_then_parent_or"]),
+                "cond_order": [0, 1, 2], "thr": rng.randint(1, 4), "kthr": rng.randint(0, 3), "thr2": rng.randint(1, 5),
+                "scalar": False, "caching": rng.random() < 0.7}
+    return {"world": gen_world(rng), "sel": rng.choice(["elem", "parent_elem", "parent_elem", "elem_parent", "parent"]),
+            "cond": rng.choice(["none", "elem", "parent", "both", "join", "join3", "elem_or", "elem_stacked", "elem_and", "elem_not",
+                                "elem_then_parent_or", "elem_then_parent_notand"]),
             "cond_order": rng.choice([[0, 1, 2], [2, 1, 0], [1, 0, 2], [2, 0, 1]]),
             "thr": rng.randint(1, 4), "kthr": rng.randint(0, 3), "thr2": rng.randint(1, 5),
             "scalar": rng.random() < 0.15, "caching": rng.random() < 0.7}
@@ -83,20 +95,42 @@ def gen_case(rng):
 
 def cases(spec, ctx):
     for i in range(spec["n"]):
-        yield gen_case(ctx.rng(spec["sub"], i))
+        case = gen_case(ctx.rng(spec["sub"], i))
+        if case["sel"] == "parent" and case["cond"] in ("none", "parent"):
+            case["cond"] = "elem"       # with only the parent selected the element has to be mentioned by a condition
+        if case["sel"] == "parent" and case["cond"] == "elem_not":
+            # a disjunction with an alternative that does not mention the (unselected) element of an EMPTY collection: the
+            # short-circuit never unnests, "observed, not judged" in DESIGN 9.5 (like an empty domain below or_)
+            for p in case["world"]["parents"]:
+                if not p["items"]:
+                    p["items"] = [p["k"] % 5]
+        yield case
 
 
-def build_world(w):
+PRIMS = [-2, -1, 1, 2, 3]      # value of element i in a 'prim' world; E(i+1).n - 3 skips 0 (falsy values: C19)
+
+
+def build_world(w, prim=False):
     es = [E(i + 1) for i in range(5)]
+    if prim:
+        return es, [Par(p["k"], [PRIMS[i] for i in p["items"]], PRIMS[p["one"]]) for p in w["parents"]]
     ps = [Par(p["k"], [es[i] for i in p["items"]], p["one"][1] if isinstance(p["one"], list) else es[p["one"]]) for p in w["parents"]]
     return es, ps
+
+
+class _V:
+    """a primitive element seen through the same `.n` the element objects have (thresholds are shifted with it)"""
+    def __init__(self, v):
+        self.v = v
+        self.n = v + 3 if v < 0 else v + 2
 
 
 def expected(case, es, ps):
     out = []
     for pi, p in enumerate(ps):
         inner = [p.one] if case["scalar"] else p.items
-        for x in inner:
+        for x0 in inner:
+            x = _V(x0) if case.get("prim") else x0
             ok = True
             c = case["cond"]
             if c in ("elem", "both") and not x.n > case["thr"]:
@@ -112,6 +146,10 @@ def expected(case, es, ps):
                 ok = not (x.n > case["thr"] and p.k > case["kthr"])
             if c in ("parent", "both") and not p.k > case["kthr"]:
                 ok = False
+            if c == "elem_then_parent_or":
+                ok = x.n > case["thr"] and (p.k == case["kthr"] or p.k > t2 - 1)
+            if c == "elem_then_parent_notand":
+                ok = x.n > case["thr"] and not (p.k != case["kthr"] and p.k <= t2 - 1)
             if c == "join":
                 # joined with d over es[:3]: e == d  -> element must be one of the first three element objects
                 ok = any(x is d for d in es[:3])
@@ -120,8 +158,9 @@ def expected(case, es, ps):
                 # d and z are not selected, so the row (parent, element) qualifies if SOME d, z exist
                 ok = any(z.n >= d.n and p.k >= d.n and x.n < d.n for d in es[:3] for z in es[2:])
             if ok:
-                xl = f"E{es.index(x)}" if isinstance(x, E) else "scalar:" + repr(x)
-                out.append({"elem": (xl,), "parent_elem": (f"Par{pi}", xl), "elem_parent": (xl, f"Par{pi}")}[case["sel"]])
+                xl = f"E{es.index(x)}" if isinstance(x, E) else "scalar:" + repr(x0)
+                out.append({"elem": (xl,), "parent_elem": (f"Par{pi}", xl), "elem_parent": (xl, f"Par{pi}"),
+                            "parent": (f"Par{pi}",)}[case["sel"]])
     return out
 
 
@@ -136,17 +175,47 @@ def build_query(case, es, ps):
         e = flatten(p.one) if case["scalar"] else flatten(p.items)
         conds = []
         c = case["cond"]
-        if c in ("elem", "both"):
-            conds.append(e.n > case["thr"])
         t2 = case.get("thr2", 1)
+        if case.get("prim"):
+            # the primitive v stands for n = v+3 (v<0) / v+2 (v>0): n > t  <=>  v > t-3 for negative and v > t-2 for positive v;
+            # written on the value itself as a comparison with the matching primitive bound
+            def gt(t):      # n > t
+                return e > _prim_bound(t)
+
+            def ge(t):
+                return e >= _prim_lower(t)
+
+            def le(t):
+                return e <= _prim_bound(t)
+
+            def eq(t):
+                return e == _prim_of(t)
+        else:
+            def gt(t):
+                return e.n > t
+
+            def ge(t):
+                return e.n >= t
+
+            def le(t):
+                return e.n <= t
+
+            def eq(t):
+                return e.n == t
+        if c in ("elem", "both"):
+            conds.append(gt(case["thr"]))
         if c == "elem_or":
-            conds.append(or_(e.n > case["thr"], e.n == t2))
+            conds.append(or_(gt(case["thr"]), eq(t2)))
         if c == "elem_stacked":
-            conds += [e.n >= 0, e.n > case["thr"]]
+            conds += [ge(0), gt(case["thr"])]
         if c == "elem_and":
-            conds.append(and_(e.n >= t2, e.n <= case["thr"] + 1))
+            conds.append(and_(ge(t2), le(case["thr"] + 1)))
         if c == "elem_not":
-            conds.append(not_(and_(e.n > case["thr"], p.k > case["kthr"])))
+            conds.append(not_(and_(gt(case["thr"]), p.k > case["kthr"])))
+        if c == "elem_then_parent_or":
+            conds += [gt(case["thr"]), or_(p.k == case["kthr"], p.k > t2 - 1)]
+        if c == "elem_then_parent_notand":
+            conds += [gt(case["thr"]), not_(and_(p.k != case["kthr"], p.k <= t2 - 1))]
         if c in ("parent", "both"):
             conds.append(p.k > case["kthr"])
         if c == "join":
@@ -157,7 +226,9 @@ def build_query(case, es, ps):
             z = let(E, es[2:])
             three = [z.n >= d.n, p.k >= d.n, e.n < d.n]
             conds += [three[i] for i in case.get("cond_order", [0, 1, 2])]
-        if case["sel"] == "elem":
+        if case["sel"] == "parent":
+            q = an(entity(p, *conds))
+        elif case["sel"] == "elem":
             q = an(entity(e, *conds))
         elif case["sel"] == "parent_elem":
             q = an(set_of([p, e], *conds))
@@ -170,7 +241,9 @@ def build_query(case, es, ps):
     def enc_rows(results):
         rows = []
         for r in results:
-            if case["sel"] == "elem":
+            if case["sel"] == "parent":
+                rows.append((lab.get(id(r), "?"),))
+            elif case["sel"] == "elem":
                 rows.append((el(r),))
             elif case["sel"] == "parent_elem":
                 rows.append((lab.get(id(r[p]), "?"), el(r[e])))
@@ -178,6 +251,21 @@ def build_query(case, es, ps):
                 rows.append((el(r[e]), lab.get(id(r[p]), "?")))
         return rows
     return q, enc_rows
+
+
+def _prim_of(n):
+    """the primitive whose pseudo-n is n (n = 1..5 -> -2, -1, 1, 2, 3); outside that range a value no element has"""
+    return PRIMS[n - 1] if 1 <= n <= 5 else 99
+
+
+def _prim_bound(n):
+    """largest primitive with pseudo-n <= n"""
+    return -3 if n < 1 else PRIMS[min(n, 5) - 1]
+
+
+def _prim_lower(n):
+    """smallest primitive with pseudo-n >= n"""
+    return 99 if n > 5 else PRIMS[max(n, 1) - 1]
 
 
 def run(case, es, ps, caching, times=1):
@@ -191,12 +279,14 @@ def run(case, es, ps, caching, times=1):
 
 
 def run_for_c05(case, caching, times):
-    es, ps = build_world(case["world"])
+    es, ps = build_world(case["world"], case.get("prim", False))
     return run(case, es, ps, caching, times), expected(case, es, ps), False
 
 
 def check_case(case, ctx):
-    es, ps = build_world(case["world"])
+    es, ps = build_world(case["world"], case.get("prim", False))
+    if case.get("prim"):
+        ctx.cls("cls:primitive_elements")
     exp = expected(case, es, ps)
     ctx.cls("cls:sel:" + case["sel"])
     ctx.cls("cls:cond:" + case["cond"])
@@ -236,7 +326,7 @@ def check_case(case, ctx):
                         "n_observed": len(got)})
     elif upper != lower and g != upper:
         ctx.count("repeated_element_in_one_list_collapsed")
-    if case["cond"] == "none" and not case["scalar"] and not (miss or extra):
+    if case["cond"] == "none" and not case["scalar"] and not case.get("prim") and not (miss or extra):
         # a query without conditions holds no cached truth values: evaluated again after the inner collections changed,
         # the same query object unnests the collections as they are now
         ctx.cls("cls:reevaluated_after_inner_lists_changed")
